@@ -94,7 +94,7 @@ verus! {
 //@end
 
 //@extract src/db.rs :: Database :: recover as=publish_recovered world props=C11+C06
-//@anchor snapshot_tracker.set(db.supervisor.seqno.get())
+//@anchor .snapshot_tracker.set(
 //@sig fn publish_recovered(db: &Database) -> ()
 //@contract
     requires old(w).recovering, !db.supervisor.seqno.is_visible@,
